@@ -1,6 +1,6 @@
 (* C12 -- Block Attributes apply once, to the next block only (partial).  Property theorems only. *)
 From Rimu Require Import Base Regex RegexParse Str Types Tables Guards State Inline Block
-  Frame FrameBlock FrameInst OptionsLemmas MiscLemmas MoreLemmas AttrInject.
+  Frame FrameBlock FrameInst OptionsLemmas MiscLemmas MoreLemmas AttrInject RegexAnalysis PlainDoc ParaDoc GreedyLoop AttrDoc.
 
 (* injection into a non-empty tag consumes every pending class, id, css and attribute *)
 Theorem C12_consume : forall tag s r s',
@@ -66,3 +66,32 @@ Example C12_ex_tags :
   [$"<p class=""x"">"; $"<pre class=""x""><code>"; $"<blockquote class=""x""><p>"; $"<ul class=""x"">"] /\
   forallb (fun T => existsb (str_eqb T) open_tags) [$"<p>"; $"<pre><code>"; $"<blockquote><p>"; $"<ul>"] = true.
 Proof. split; vm_compute; reflexivity. Qed.
+
+(* END TO END: a Block Attributes line with one class name followed by a paragraph line (any line with the paragraph hypotheses of
+   ParaDoc.v) renders to the paragraph with class="name" in its <p> tag, and the session afterwards is the session before:
+   nothing stays pending.  On the way: none of the ten earlier line rules matches the line; the first Block Attributes pattern
+   is matched as a prefix and its END decides how the rest of the line is read, so the greedy execution of the matcher is
+   evaluated on the symbolic name (C12_parse_class_name: the star takes the whole name); the second pattern is evaluated on the
+   empty rest; the class is accumulated; the paragraph's open tag receives it (C12_class_into_first_tag) and the pending state
+   is cleared before the paragraph text is rendered *)
+Theorem C12_class_paragraph_document : forall n a w l R s, para_line (ienv_of s) l R ->
+  quiet_default s -> parse_skip (s_mode s) = false -> cls_name_ok a w ->
+  doc_render (S (S (S (S (S n))))) (ba_line a w ++ 10 :: l) s = Ok (cls_html (a :: w) ++ R ++ $"</p>", s).
+Proof. exact class_paragraph_document. Qed.
+Print Assumptions C12_class_paragraph_document.
+
+Theorem C12_parse_class_name : forall a w, class_name_ok a w ->
+  re_match re_blockattributes_parse_0 (46 :: a :: w) =
+  Some {| m_start := 0; m_end := 0 + 1 + 1 + lenN w; m_groups := [Some (46 :: a :: w); Some (a :: w)] |}.
+Proof. exact parse0_class. Qed.
+Print Assumptions C12_parse_class_name.
+
+Theorem C12_attributes_line_accumulates : forall fuel a w rest s, cls_name_ok a w -> parse_skip (s_mode s) = false -> p_classes s = [] ->
+  lineblocks_render fuel (ba_line a w :: rest) [] s = Ok ((Some [], rest), set_classes s (a :: w)).
+Proof. exact attr_line_stage. Qed.
+Print Assumptions C12_attributes_line_accumulates.
+
+Example C12_ex_class_paragraph :
+  match doc_render 10 ($".note-1" ++ [10] ++ $"hello *w* x") (document_init S0) with
+  | Ok (html, s) => str_eqb html $"<p class=""note-1"">hello <em>w</em> x</p>" && is_empty (p_classes s) | _ => false end = true.
+Proof. vm_compute. reflexivity. Qed.
